@@ -657,6 +657,19 @@ func r183(c *Ctx) {
 						guarded = true
 					}
 				}
+				// a position found by a search of this very slice, merged with the "not found" -1 and used only on the
+				// branch where it is not negative (`i := slices.IndexFunc(xs, ...); if i < 0 { ... }; xs[i]`)
+				if ri := reduceIndex(ia.Index); !guarded && ri != ia.Index {
+					nonNeg := false
+					for _, f := range intFacts(in, sameAs(ia.Index)) {
+						if (f.op == token.GEQ && f.k >= 0) || (f.op == token.GTR && f.k >= -1) || (f.op == token.NEQ && f.k == -1) {
+							nonNeg = true
+						}
+					}
+					if src, full := fullRangeElem(&ssa.UnOp{Op: token.MUL, X: &ssa.IndexAddr{X: ia.X, Index: ri}}); nonNeg && full && src != nil {
+						guarded = true
+					}
+				}
 				// X = make([]T, len(Y)) indexed by the loop variable of a range over Y (filling a pre-sized result)
 				if mk, isMk := ia.X.(*ssa.MakeSlice); isMk && !guarded {
 					if lc, isCall := mk.Len.(*ssa.Call); isCall {
